@@ -37,5 +37,5 @@ package preamble
 //@ func (*Store).CreatePreamble props C09,C02
 //@   requires store.rw != nil
 //@   assumes notappend: !$fappend[ref(store.rw)]
-//@   ensures {C09} whole: result == nil ==> $fcontent[ref(store.rw)] == $lastjson && $fdurable[ref(store.rw)] == $lastjson
+//@   ensures {C09,C02} whole: result == nil ==> $fcontent[ref(store.rw)] == $lastjson && $fdurable[ref(store.rw)] == $lastjson
 //@   modifies *
